@@ -126,6 +126,8 @@ def build_and_run(h, tier, workroot, keep=False):
     gi = ["goto-instrument", "--dfcc", fn]
     for f in h.get("enforce", []):
         gi += ["--enforce-contract", f]
+    for f in h.get("enforce_rec", []):
+        gi += ["--enforce-contract-rec", f]
     for f in h.get("replace", []):
         gi += ["--replace-call-with-contract", f]
     if h.get("loops"):
@@ -133,7 +135,7 @@ def build_and_run(h, tier, workroot, keep=False):
     if h.get("loops_file"):
         gi += ["--loop-contracts-file", h["loops_file"]]
     gi += [a, b]
-    if h.get("enforce") or h.get("replace") or h.get("loops"):
+    if h.get("enforce") or h.get("enforce_rec") or h.get("replace") or h.get("loops"):
         rc, out, err, w = sh(gi, cwd=wd, timeout=600, mem_gb=24)
         res["cmds"].append(" ".join(gi)); res["wall"] += w
         if rc != 0:
@@ -142,13 +144,29 @@ def build_and_run(h, tier, workroot, keep=False):
         res["instr_log"] = (out + err)[-4000:]
     else:
         shutil.copy(a, b)
-    cb = ["cbmc", b, "--json-ui", "--trace"] + CBMC_CHECKS
+    cb = ["cbmc", b] + CBMC_CHECKS
     uw = h.get("unwind_" + tier, h.get("unwind"))
     if uw:
         cb += ["--unwind", str(uw)]
     us = h.get("unwindset_" + tier, h.get("unwindset"))
     if us:
-        cb += ["--unwindset", ",".join("%s:%d" % kv for kv in us.items())]
+        # loop identifiers change under DFCC (…_wrapped_for_contract_checking): resolve "function.ordinal" against
+        # the loops actually present in the instrumented binary
+        rc, out, err, w = sh(["cbmc", b, "--show-loops", "--json-ui"], cwd=wd, timeout=120)
+        pairs = []
+        try:
+            for e in json.loads(out):
+                for lp in e.get("loops", []):
+                    fnm = lp.get("sourceLocation", {}).get("function", "")
+                    ordinal = lp["name"].rsplit(".", 1)[-1]
+                    key = "%s.%s" % (fnm, ordinal)
+                    if key in us:
+                        pairs.append("%s:%d" % (lp["name"], us[key]))
+        except Exception as ex:
+            res["undecided"] = "cannot list loops: %s" % ex
+            return res
+        if pairs:
+            cb += ["--unwindset", ",".join(sorted(set(pairs)))]
     cb += ["--unwinding-assertions"]
     if h.get("object_bits"):
         cb += ["--object-bits", str(h["object_bits"])]
@@ -162,45 +180,66 @@ def build_and_run(h, tier, workroot, keep=False):
         cb += ["--cvc5"]
     cb += h.get("cbmc_flags", [])
     tmo = h.get("timeout_" + tier, h.get("timeout", 900))
+    # plain-text UI: --json-ui always embeds a full trace per failed obligation (gigabytes on struct-heavy code)
     rc, out, err, w = sh(cb, cwd=wd, timeout=tmo, mem_gb=h.get("mem_gb", 24))
     res["cmds"].append(" ".join(cb)); res["wall"] += w; res["solver_wall"] = w
     if rc == -9:
         res["undecided"] = "cbmc timeout after %ds" % tmo
         return res
-    try:
-        data = json.loads(out)
-    except Exception:
-        res["undecided"] = "cbmc output not parseable (rc=%s): %s" % (rc, (err or out)[-1500:])
+    text = out + "\n" + err
+    for ln in text.split("\n"):
+        if re.search(r"ignoring|no body for|does not have a contract|out of memory|std::bad_alloc", ln):
+            res["warnings"].append(ln[:300])
+    if "** Results:" not in out or not re.search(r"VERIFICATION (SUCCESSFUL|FAILED)", out):
+        res["undecided"] = "cbmc produced no result list (rc=%s): %s" % (rc, text[-1500:])
         return res
-    results = None
-    for e in data:
-        if "result" in e:
-            results = e["result"]
-        if e.get("messageType") in ("WARNING", "ERROR"):
-            t = e.get("messageText", "")
-            if re.search(r"ignoring|no body for|does not have a contract|unwinding assertion|out of memory", t):
-                res["warnings"].append(t[:300])
-            if e.get("messageType") == "ERROR":
-                res["warnings"].append("ERROR: " + t[:300])
-    if results is None:
-        res["undecided"] = "cbmc produced no result list (rc=%s): %s" % (rc, json.dumps(data)[-1500:])
-        return res
-    for r in results:
-        sl = r.get("sourceLocation", {})
-        ob = {"name": r["property"], "desc": r.get("description", ""), "status": r["status"],
-              "file": sl.get("file", ""), "line": int(sl.get("line", 0) or 0), "function": sl.get("function", ""),
-              "wd": sl.get("workingDirectory", wd)}
-        if r["status"] == "FAILURE" and "trace" in r:
-            ob["trace"] = r["trace"]
+    cur_file, cur_fn = "", ""
+    hdr = re.compile(r"^(\S.*) function (\S+)$")
+    prop = re.compile(r"^\[([^\]]+)\] (?:file (\S+) )?line (\d+) (.*): (SUCCESS|FAILURE|UNKNOWN|ERROR)$")
+    prop_noline = re.compile(r"^\[([^\]]+)\] (.*): (SUCCESS|FAILURE|UNKNOWN|ERROR)$")
+    in_results = False
+    for ln in out.split("\n"):
+        if ln.startswith("** Results:"):
+            in_results = True
+            continue
+        if not in_results:
+            continue
+        m = prop.match(ln)
+        if m:
+            ob = {"name": m.group(1), "desc": m.group(4), "status": m.group(5), "file": m.group(2) or cur_file,
+                  "line": int(m.group(3)), "function": cur_fn, "wd": wd}
+        else:
+            m2 = prop_noline.match(ln)
+            if m2:
+                ob = {"name": m2.group(1), "desc": m2.group(2), "status": m2.group(3), "file": cur_file, "line": 0,
+                      "function": cur_fn, "wd": wd}
+            else:
+                mh = hdr.match(ln)
+                if mh:
+                    cur_file, cur_fn = mh.group(1), mh.group(2)
+                elif ln.strip() == "":
+                    cur_file, cur_fn = "", ""
+                continue
         ob["kind"], ob["props"], ob["tag"] = classify(ob, h)
         res["obligations"].append(ob)
-    if not keep:
-        for f in (a, b):
-            try:
-                os.remove(f)
-            except OSError:
-                pass
+    res["trace_cmd"] = cb
+    res["wd"] = wd
+    res["timeout"] = tmo
     return res
+
+
+def fetch_trace(r, propname):
+    """second, targeted run: counterexample trace of one failed obligation (whole-run traces reach gigabytes)"""
+    cb = list(r["trace_cmd"]) + ["--json-ui", "--property", propname]
+    rc, out, err, w = sh(cb, cwd=r["wd"], timeout=r["timeout"], mem_gb=24)
+    try:
+        for e in json.loads(out):
+            for x in e.get("result", []):
+                if x["property"] == propname and x["status"] == "FAILURE":
+                    return x.get("trace")
+    except Exception:
+        return None
+    return None
 
 
 # ------------------------------------------------------------------------------------------------
@@ -410,7 +449,7 @@ def report(pid, tier, seed, pdef, hs, results, extra_results, known, floors, wor
                 continue
             violations.append((h, o))
         backends[r["solver"]] = backends.get(r["solver"], 0) + n_h_dis
-        per_harness.append({"harness": hn, "status": "ok", "function_under_contract": h.get("enforce", []),
+        per_harness.append({"harness": hn, "status": "ok", "function_under_contract": h.get("enforce", []) + h.get("enforce_rec", []),
                             "callees_replaced_by_contract": h.get("replace", []),
                             "obligations_total_in_harness": total_count, "attributed": len(mine), "discharged": n_h_dis,
                             "backend": r["solver"], "solver_wall_s": round(r.get("solver_wall", 0), 1),
@@ -438,10 +477,18 @@ def report(pid, tier, seed, pdef, hs, results, extra_results, known, floors, wor
         json.dump(cur, open(fp, "w"), indent=1, sort_keys=True)
 
     # ---- violations: replay
+    import glob
+    for old in glob.glob(os.path.join(VERIF, "replays", pid + "-*.json")):
+        try:
+            os.remove(old)
+        except OSError:
+            pass
     vio_lines = []
     seen_tags = set()
     for h, o in violations:
         key = (h["name"] if h else "extra", o.get("tag"))
+        if o.get("kind") in ("safety", "frame", "loop", "closure"):
+            key = (h["name"] if h else "extra", o.get("kind"), o.get("function"))   # one report per function
         if key in seen_tags:
             continue      # the same clause fails as contract postcondition and as harness-level check: report once
         seen_tags.add(key)
@@ -449,6 +496,10 @@ def report(pid, tier, seed, pdef, hs, results, extra_results, known, floors, wor
             rp = write_replay_file(pid, "extra", o, None, "none", o.get("text", ""))
             vio_lines.append("VIOLATION property=%s replay=%s%s" % (pid, rp, "" if o.get("has_input") else " no-failing-input-found"))
             continue
+        if len(vio_lines) < 4 and o["kind"] in ("spec", "contract", "safety", "frame", "loop"):
+            rr = [r for hh, r in zip(hs, results) if hh is h]
+            if rr:
+                o["trace"] = fetch_trace(rr[0], o["name"])
         stmts = extract_inputs(o.get("trace", []), h["fn"]) if o.get("trace") else []
         status, text = ("no-trace", "")
         if stmts and o["kind"] in ("spec", "contract", "safety") and not h.get("no_native"):
@@ -468,7 +519,7 @@ def report(pid, tier, seed, pdef, hs, results, extra_results, known, floors, wor
             "checker_cmd": "goto-cc --function <h> ; goto-instrument --dfcc <h> --enforce-contract <f> [--replace-call-with-contract g..] [--apply-loop-contracts] ; cbmc "
                            + " ".join(CBMC_CHECKS) + " --unwinding-assertions [--unwindset ..] [solver] (exact lines per harness below)",
             "trusted_base": table.TRUSTED_BASE + pdef.get("trusted", []),
-            "functions_under_contract": sorted(set(sum([h.get("enforce", []) for h in hs], []))),
+            "functions_under_contract": sorted(set(sum([h.get("enforce", []) + h.get("enforce_rec", []) for h in hs], []))),
             "callees_replaced_by_proved_contract": sorted(set(sum([h.get("replace", []) for h in hs], []))),
             "discharged_by_backend": backends,
             "harnesses": per_harness,
